@@ -439,8 +439,9 @@ PROPS = {
                  "balances / prices verbatim; nothing else (C13_count, C13_booking_row, C13_nothing_else, C13_no_open_close, C13_swisscard2_one_tx_per_row); C13_<importer>_wellformed - every "
                  "emitted directive is well-formed (at least one booking per transaction, postings in pairs, every account / commodity / @performance target a valid name for knut's registry "
                  "and parser) whatever the free text contains: the hypothesis of the print-then-parse round trip; the monitor's executable "
-                 "predicate is complete and sound for Faithful (C13_monitor_complete, C13_monitor_sound, C13_matchesB_iff). Kernel-checked witnesses of the deviations: "
-                 "wise_conversion_two_transactions, swissquote_forex_pair_one_transaction, swissquote_sale_without_proceeds_is_booked_as_purchase, postfinance_echo_nonempty. "
+                 "predicate is complete and sound for Faithful (C13_monitor_complete, C13_monitor_sound, C13_matchesB_iff). C13_description_has_no_quote + C13_replaceQuotes_idempotent (transaction.Builder.Build stores a quote-free description, so the day's transactions are sorted by the "
+                 "text that is printed; the printer's own replacement is idle). Kernel-checked witnesses: wise_conversion_two_transactions, swissquote_forex_pair_one_transaction "
+                 "(by-design deviations), swissquote_sale_without_proceeds_is_a_sale (repaired behaviour). "
                  "NOT mechanised: the text-level clause (output parses, is accepted and re-printed unchanged once the accounts are opened; stays valid for arbitrary free text) - it "
                  "needs print-then-parse lemmas of the parser model; decided on every run on the REAL output by knut's own parser, the Lean parser model, `knut print` on opens + output "
                  "(accepted, byte-identical), over free text with quotes, separators, newlines, control characters and Unicode. Tie: `knut import <x>` as a subprocess on generated statements of every format (and the "
@@ -449,9 +450,10 @@ PROPS = {
                  "strings.TrimSpace/Fields/Trim/Replacer, the importers' regular expressions, registry name checks) are compared with Go on structured and mutated strings.",
         "note": "Trusted: Lean kernel; axioms propext, Classical.choice, Quot.sound; encoding/csv, encoding/json, charmap ISO 8859-1 and the BOM skipper (decoding is mirrored by the harness with the "
                 "importers' reader settings and handed to the models as records); cobra flag parsing; journal.Print's sort (sort.Slice modelled as stable). Domain: statements are text in their "
-                "encoding (a statement that is not valid UTF-8 yields descriptions the journal syntax cannot carry). Known findings (KNOWN-FINDING lines, exit 0): "
-                "C13-postfinance-debug-line-on-stdout, C13-quote-replaced-after-sorting, C13-swissquote-sale-without-proceeds-booked-as-purchase, C13-wise-conversion-two-transactions, "
-                "C13-swissquote-forex-pair-one-transaction, C13-interactivebrokers-rounds-to-cents.",
+                "encoding (a statement that is not valid UTF-8 yields descriptions the journal syntax cannot carry). Known findings (KNOWN-FINDING lines, exit 0; by-design deviations from the literal wording): "
+                "C13-wise-conversion-two-transactions, C13-swissquote-forex-pair-one-transaction, C13-interactivebrokers-rounds-to-cents. Fixed in /repo and modelled as fixed (a return of the "
+                "behaviour is a VIOLATION): C13-postfinance-debug-line-on-stdout (3b9fb06), C13-swissquote-sale-without-proceeds-booked-as-purchase (c9fcfe1), "
+                "C13-quote-replaced-after-sorting (7934e0c). The printer model's String.replace being the identity on a quote-free description is not provable in core Lean.",
         "rule": "streams: stmt (per importer: 0-60 rows, dates over several years and days with several rows, debits and credits, zero amounts, amounts with thousands separators / trailing zeros / "
                 "up to 8 decimals / leading-dot / exponent literals, several currencies incl. non-ASCII commodity names, fees, exchange rows, forex pairs, trades, dividends with withholding, "
                 "pending / cancelled / ignored rows, balances consistent from a zero opening balance, free text from plain / Latin-1 / Unicode / quotes / separators / newlines / control characters, "
